@@ -134,6 +134,19 @@ def stripDone (s : String) : String :=
   String.intercalate " | " ((s.splitOn " | ").map fun st =>
     if st.endsWith " d0" || st.endsWith " d1" then (st.dropEnd 3).toString else st)
 
+/-- does some step of a canonical body hand over two requests with the same canonical key `n:v:kind`? Then `(res K v)` /
+    `(drop K)`, which address requests by their rank in the sorted batch, are ambiguous between the two, and the tie is
+    broken by emission order — which legitimately differs between the Command API and the legacy capability API
+    (`ctx.spawn` starts a task at a different point of the run). -/
+def ambiguousBatch (body : String) : Bool :=
+  (body.splitOn " | ").any fun st =>
+    match (st.splitOn "E{") with
+    | _ :: r :: _ =>
+      let inside := (r.splitOn "}").headD ""
+      let ks := (inside.splitOn ",").filter (· != "")
+      ks.eraseDups.length != ks.length
+    | _ => false
+
 /-- Core-like hosts have one extra leading step (the triggering event); the direct host's first step is its
     initial observation: they correspond one to one. -/
 def canonChecks (prop : String) (line implLine : String) : Option String :=
@@ -143,7 +156,10 @@ def canonChecks (prop : String) (line implLine : String) : Option String :=
     guard (!implLine.startsWith "panic") "panicked",
     fun _ =>
       if caseKind == "hosts" then
-        let bodies := vs.map fun (_, b) => stripDone b
+        -- look-alike requests in one batch: the legacy host may address the other twin; it is left out of the comparison
+        let amb := vs.any fun (_, b) => ambiguousBatch b
+        let vs' := if amb then vs.filter (·.1 != "L") else vs
+        let bodies := vs'.map fun (_, b) => stripDone b
         match bodies with
         | [] => some "unparseable-observation"
         | b :: rest => if rest.all (· == b) then none else some "host-dependent"
